@@ -75,6 +75,26 @@ func TestC17Child(t *testing.T) {
 			fmt.Fprintf(out, "C17CHILD activate refused\n")
 			return
 		}
+		if (seed/30)%2 == 1 {
+			// the producers lose the contract receive again and again (restart after every slot), so it is
+			// confirmed only after the enforcement height it announces has already passed
+			fmt.Fprintf(out, "C17CHILD late-receive\n")
+			w.StepSlot()
+			for i := 0; i < 8; i++ {
+				if err := n.Restart(false); err != nil {
+					fmt.Fprintf(out, "C17CHILD restart failed %v\n", err)
+					return
+				}
+				fmt.Fprintf(out, "C17CHILD alive height=%d\n", n.Height())
+				w.StepSlot()
+			}
+			for i := 0; i < 12; i++ {
+				fmt.Fprintf(out, "C17CHILD alive height=%d\n", n.Height())
+				w.StepSlot()
+			}
+			fmt.Fprintf(out, "C17CHILD survived height=%d\n", n.Height())
+			return
+		}
 		w.StepSlot() // confirms the activation; the contract receive follows in the pool
 		w.StepSlot() // confirms the receive
 		sp := definition.GetSporkInfoById(n.Chain.GetFrontierMomentumStore().GetAccountStore(types.SporkContract).Storage(), b.Hash)
